@@ -81,6 +81,19 @@ func (t *T) Int64(tag string) int64 { return t.next("int64", tag) }
 func (t *T) Int(tag string) int     { return int(t.next("int", tag)) }
 func (t *T) Byte(tag string) byte   { return byte(t.next("byte", tag)) }
 
+// Bytes returns an arbitrary string of exactly n bytes (none of them '\n' or 0).
+func (t *T) Bytes(tag string, n int) string {
+	b := make([]byte, n)
+	for i := range b {
+		b[i] = byte(t.next("byte", tag))
+	}
+	return string(b)
+}
+
+// FixClock makes the model clock the real current time (so that code that
+// derives file names from the date behaves the same natively).
+func (t *T) FixClock() {}
+
 // Choose is a decision among n alternatives (the engine explores all).
 func (t *T) Choose(tag string, n int) int { return int(t.next("choose", tag)) }
 
